@@ -17,7 +17,7 @@ pub fn generate(prop: &str, rng: &mut Rng, n: usize, sink: &mut Sink) {
         "C09" | "C10" => tm::gen(rng, n, sink, prop),
         "C11" | "C12" | "C16" => gov::gen(rng, n, sink, prop),
         "C04" | "C05" | "C08" | "C13" | "C14" | "C17" | "C18" | "C19" | "C20" => its::gen(rng, n, sink, prop),
-        "ITS-F1" | "ITS-F2a" | "ITS-F2b" | "ITS-F4" | "ITS-F5" | "ITS-F6" => its::scenario(rng, sink, &prop[4..]),
+        "ITS-F1" | "ITS-F2a" | "ITS-F2b" | "ITS-F4" | "ITS-F5" | "ITS-F6" | "ITS-F7" => its::scenario(rng, sink, &prop[4..]),
         "C11F3" => gov::scenario_f3(rng, sink, false),
         "C12F3" => gov::scenario_f3(rng, sink, true),
         _ => panic!("no generator for {prop}"),
